@@ -88,6 +88,26 @@ Theorem C19_convert : forall c m r, well_typed_record c r = true ->
 Proof. exact convert_spec. Qed.
 Print Assumptions C19_convert.
 
+(* expected_field spelled out. Header: for both shipped converters, fields 1 / 2 / 3 / 33 of every
+   flow message are the IPFIX message's export time, sequence number, observation domain and
+   exporter address (no element is mapped onto them). Record: the value of the last element of
+   the record that the converter maps to field k is what field k holds. *)
+Theorem C19_header : forall m r,
+  (expected_field conv1 m r KU32 1 = PU (k_time m) /\ expected_field conv1 m r KU32 2 = PU (k_seq m) /\
+   expected_field conv1 m r KU32 3 = PU (k_dom m) /\ expected_field conv1 m r KStr 33 = PS (k_addr m)) /\
+  (expected_field conv2 m r KU32 1 = PU (k_time m) /\ expected_field conv2 m r KU32 2 = PU (k_seq m) /\
+   expected_field conv2 m r KU32 3 = PU (k_dom m) /\ expected_field conv2 m r KStr 33 = PS (k_addr m)).
+Proof. exact header_fields_conv12. Qed.
+Print Assumptions C19_header.
+
+Theorem C19_record_field : forall c m r1 e r2 k kd,
+  conv_lookup (cv_rows c) (e_name e) (kind_tag (e_val e)) = Mapped k ->
+  forallb (fun e' => match conv_lookup (cv_rows c) (e_name e') (kind_tag (e_val e')) with
+                     | Mapped k' => negb (N.eqb k' k) | _ => true end) r2 = true ->
+  expected_field c m (r1 ++ e :: r2) kd k = elem_pval e.
+Proof. exact record_field. Qed.
+Print Assumptions C19_record_field.
+
 (* (6) the oracle the check applies to the implementation's observations (sobs_ok: no panic, one
    Kafka message per record in order, topic, 4-byte length prefix = real size, the model's decoder
    on the payload and the consumer-side dump give the record's values and the header) holds on
